@@ -3,6 +3,7 @@ package driver
 import (
 	"fmt"
 	"io"
+	"os"
 	"sort"
 	"strings"
 	"sync"
@@ -19,6 +20,7 @@ type Case struct {
 	MaxSteps      int      `json:"max_steps,omitempty"`
 	WitnessEvery  int      `json:"witness_every,omitempty"`
 	MaxWitnesses  int      `json:"max_witnesses,omitempty"`
+	MaxSecs       int      `json:"max_secs,omitempty"` // wall-clock budget of the case (0 = none); exceeding it is INCONCLUSIVE
 	MaxMapPerm    int      `json:"max_map_perm,omitempty"`
 	ByteEnum      bool     `json:"byte_enum,omitempty"`
 	OrderPolicies int      `json:"order_policies,omitempty"`
@@ -47,6 +49,8 @@ type CaseReport struct {
 	Asserts      int
 	Err          string
 	Skipped      string
+	// StoppedOnViolations: exploration of the case ended early after 64 violating paths
+	StoppedOnViolations bool
 }
 
 func (c Case) String() string {
@@ -83,6 +87,7 @@ func (s *Session) Explore(c Case) *CaseReport {
 		c.MaxWitnesses = 400
 	}
 	t0 := time.Now()
+	nviol := 0
 	var mu sync.Mutex
 	cond := sync.NewCond(&mu)
 	stack := []interp.Work{{}}
@@ -158,12 +163,24 @@ func (s *Session) Explore(c Case) *CaseReport {
 						rep.Violations = append(rep.Violations, v)
 					}
 				}
+				if len(res.Violations) > 0 {
+					nviol += len(res.Violations)
+					if !stop && nviol >= 64 && os.Getenv("GOSYM_NO_FAILFAST") == "" {
+						// enough counterexamples to replay: do not explore a (possibly exploding) broken case to the end
+						stop = true
+						rep.StoppedOnViolations = true
+					}
+				}
 				if res.HasWitness && len(rep.Witnesses) < c.MaxWitnesses {
 					rep.Witnesses = append(rep.Witnesses, Witness{Inputs: res.Witness, Observes: res.Observes, Reached: res.Reached, MapOrder: res.MapOrders > 0})
 				}
 				if rep.TotalPaths >= c.MaxPaths {
 					stop = true
 					rep.Inconclusive = append(rep.Inconclusive, fmt.Sprintf("path budget %d exhausted", c.MaxPaths))
+				}
+				if !stop && c.MaxSecs > 0 && time.Since(t0).Seconds() > float64(c.MaxSecs) {
+					stop = true
+					rep.Inconclusive = append(rep.Inconclusive, fmt.Sprintf("time budget %ds exhausted after %d paths", c.MaxSecs, rep.TotalPaths))
 				}
 				mu.Unlock()
 				cond.Broadcast()
